@@ -374,7 +374,33 @@ fn batch(prop: &str, gen_prop: &str, tier: Tier, seed: u64, runs: u64, threads: 
         done.store(true, Ordering::Relaxed);
     });
     let mut a = agg.into_inner().unwrap();
-    let found = found.into_inner().unwrap();
+    let mut found = found.into_inner().unwrap();
+    // directed part of the search: the recorded schedules of corpus/<property>/ (minimised
+    // histories that once exposed a seeded change) are re-played on every check, so that what
+    // the random search found once does not depend on the generator's distribution staying put
+    let mut corpus_cases = 0u64;
+    if !trace_hash {
+        let mut files: Vec<std::path::PathBuf> = std::fs::read_dir(format!("corpus/{prop}")).map(|d| d.filter_map(|e| e.ok()).map(|e| e.path()).filter(|p| p.extension().map_or(false, |x| x == "json")).collect()).unwrap_or_default();
+        files.sort();
+        for (i, file) in files.iter().enumerate() {
+            let case = std::fs::read_to_string(file).ok().and_then(|s| serde_json::from_str::<serde_json::Value>(&s).ok()).and_then(|j| serde_json::from_value::<Case>(j["case"].clone()).ok());
+            let Some(case) = case else {
+                eprintln!("HARNESS ERROR: corpus file {} does not parse", file.display());
+                harness_err.store(true, Ordering::Relaxed);
+                continue;
+            };
+            corpus_cases += 1;
+            let o = scen::replay(prop, &case);
+            if let Some(v) = &o.viol {
+                if v.props.is_empty() {
+                    eprintln!("HARNESS ERROR corpus {}: {} :: {}", file.display(), v.class, v.msg);
+                    harness_err.store(true, Ordering::Relaxed);
+                } else if matches_prop(v, prop) && !found.contains_key(&v.class) {
+                    found.insert(v.class.clone(), Found { run: 1_000_000_000 + i as u64, case: case.clone(), viol: v.clone(), log: o.log.clone() });
+                }
+            }
+        }
+    }
     let known = load_known();
     let mut exit = 0;
     let mut known_seen = vec![];
@@ -492,6 +518,7 @@ fn batch(prop: &str, gen_prop: &str, tier: Tier, seed: u64, runs: u64, threads: 
                 "unreached_probes": unreached,
                 "foreign_violation_runs": a.foreign,
                 "known_findings_seen": known_seen,
+                "corpus_cases_replayed": corpus_cases,
                 "violation_classes": a.own,
                 "components": {"real": real, "stub": stub},
                 "exhaustive": false,
